@@ -262,3 +262,31 @@ func isZero(t *Term) bool {
 	v, ok := t.IntVal()
 	return ok && v == 0
 }
+
+// exitAxioms: the exit symbols of one loop are pairwise exclusive.
+func exitAxioms(S *Store, sum *Summary) *Term {
+	ax := S.True
+	sum.Top.AllLoops(func(l *LoopS) {
+		var syms []*Term
+		for _, x := range l.Exits {
+			if x.Sym != nil {
+				syms = append(syms, S.SymTerm(x.Sym))
+			}
+		}
+		for i := range syms {
+			for j := i + 1; j < len(syms); j++ {
+				ax = S.And(ax, S.Not(S.And(syms[i], syms[j])))
+			}
+		}
+	})
+	return ax
+}
+
+// outerGuard: the condition, relative to the region being traversed, under which e can execute
+// (for events inside nested loops this is the entry guard of the outermost nested loop).
+func outerGuard(e *Event, loops []*LoopS) *Term {
+	if len(loops) > 0 {
+		return loops[0].Guard
+	}
+	return e.Guard
+}
